@@ -1107,6 +1107,87 @@ def rule_R8intonext(text, applied):
     return t
 
 
+def rule_R20(text, applied):
+    """visitor call -> index loop: `RECV.visit_literals(A, B, |x| { BODY });` becomes
+    `{ let lits_ = vclause_literals(&RECV, A, B); let mut li_: usize = 0; while li_ < lits_.len() { let x = lits_[li_];
+    li_ += 1; BODY' } }` where BODY' is BODY with the closure's `return;` turned into `continue;`.
+    Justification: Clause::visit_literals (clause.rs) is `try_fold_literals((), |_, lit| { visit(lit); Continue(()) })`
+    and try_fold_literals is verified (unit prop) to visit exactly lits_of(clause) in order; the helper
+    vclause_literals returns that sequence (trusted bridge, prelude/visit_helpers.rs)."""
+    cnt = 0
+    while True:
+        m_text = mask(text)
+        m = re.search(r"\.\s*visit_literals\s*\(", m_text)
+        if not m:
+            break
+        op = m.end() - 1
+        cp = match_close(m_text, op)
+        # statement start: the receiver expression begins after the previous `;`, `{` or `}` at this depth
+        k = m.start() - 1
+        depth = 0
+        while k >= 0:
+            ch = m_text[k]
+            if ch in ")]}":
+                if ch == "}" and depth == 0:
+                    break
+                depth += 1
+            elif ch in "([{":
+                if depth == 0:
+                    break
+                depth -= 1
+            elif ch == ";" and depth == 0:
+                break
+            k -= 1
+        rs = k + 1
+        recv = " ".join(text[rs:m.start()].split())
+        # closure `|x| {` at depth 0 inside the argument list
+        d = 0
+        bar = -1
+        for q in range(op + 1, cp):
+            ch = m_text[q]
+            if ch in "([{":
+                d += 1
+            elif ch in ")]}":
+                d -= 1
+            elif ch == "|" and d == 0:
+                bar = q
+                break
+        if bar < 0:
+            raise ExtractError("R20: visitor closure not found")
+        cm = re.match(r"\|\s*(\w+)\s*\|\s*\{", m_text[bar:cp])
+        if not cm:
+            raise ExtractError("R20: closure is not of the form |x| { .. }")
+        var = cm.group(1)
+        ob = bar + cm.end() - 1
+        cb = match_close(m_text, ob)
+        args = text[op + 1:bar].rstrip()
+        if args.endswith(","):
+            args = args[:-1]
+        after = m_text[cb + 1:cp].strip()
+        if after not in ("", ","):
+            raise ExtractError("R20: unexpected text after the closure")
+        semi = cp + 1
+        while semi < len(m_text) and m_text[semi] in " \t\n":
+            semi += 1
+        if semi >= len(m_text) or m_text[semi] != ";":
+            raise ExtractError("R20: visitor call is not a statement")
+        body = text[ob + 1:cb]
+        mb = mask(body)
+        # `return;` of the closure -> `continue;` (nested closures are not expected in the body)
+        if re.search(r"\|[^|]*\|", mb):
+            raise ExtractError("R20: nested closure in visitor body")
+        if re.search(r"\breturn\s+[^;]", mb):
+            raise ExtractError("R20: visitor closure returns a value")
+        body, _n = _sub_masked(body, r"\breturn\s*;", lambda mm, s_: "continue;")
+        head = f"{{ let lits_ = vclause_literals(&{recv}, {' '.join(args.split())}); let mut li_: usize = 0; while li_ < lits_.len() {{ let {var} = lits_[li_]; li_ += 1;"
+        tail = "} }"
+        text = text[:rs] + " " + _keep_newlines(text[rs:ob + 1], head) + body + _keep_newlines(text[cb:semi + 1], tail) + text[semi + 1:]
+        cnt += 1
+    if cnt:
+        applied.append(f"R20x{cnt}")
+    return text
+
+
 def rule_subst(text, applied, arg=None):
     """literal type substitution OLD=>NEW inside the item (e.g. `Box<dyn Any>` => an opaque type parameter)."""
     old, new = arg.replace("~", " ").split("=>")
@@ -1122,6 +1203,7 @@ def rule_const(text, applied):
 
 
 RULES = {
+    "R20": rule_R20,
     "R1": rule_R1, "R2": rule_R2, "R2ref": rule_R2ref, "R3": rule_R3, "R4": rule_R4, "R5": rule_R5,
     "R8max": rule_R8max, "R8cmpmax": rule_R8cmpmax, "R8resize_none": rule_R8resize_none, "R9": rule_R9, "R8position": rule_R8position, "R8rotate": rule_R8rotate, "R12refcell": rule_R12refcell,
     "R8slice": rule_R8slice, "R7iter": rule_R7iter, "R8bitget": rule_R8bitget, "R8intonext": rule_R8intonext, "R8rposition": rule_R8rposition, "R8contains": rule_R8contains, "R12cell": rule_R12cell, "R8resize_veccap": rule_R8resize_veccap, "R8collectid": rule_R8collectid, "R8index": rule_R8index, "subst": rule_subst,
@@ -1490,8 +1572,9 @@ def process_template(template_path, emitter=None):
     while i < len(tl):
         ln = tl[i]
         s = ln.strip()
-        if s.startswith("//@fn ") or s.startswith("//@block "):
+        if s.startswith("//@fn ") or s.startswith("//@block ") or s.startswith("//@compose "):
             is_block = s.startswith("//@block ")
+            is_compose = s.startswith("//@compose ")
             toks = s.split()
             rel = toks[1]
             # selector may contain spaces: `<A as B>::f` or `trait T::f`
@@ -1519,6 +1602,9 @@ def process_template(template_path, emitter=None):
             if is_block:
                 from blocks import build_block
                 build_block(Source.get(rel), selector, block_rx, opts, sections, emitter)
+            elif is_compose:
+                from blocks import build_compose
+                build_compose(Source.get(rel), selector, opts, sections, emitter)
             else:
                 build_fn(Source.get(rel), selector, opts, sections, emitter, None)
         elif s.startswith("//@consts "):
